@@ -7,7 +7,26 @@ PollPoller_remove_resets_index : bool
     (C09_Model.pp_step ri) describes the tree and therefore which theorem applies (finding F-1).
 EPollPoller_grow_factor : Z
     k if EPollPoller::poll contains  if (<numEvents> == events_.size()) events_.resize(events_.size()*k),
-    1 if the result array is never grown.  C09_epoll_bounded needs 2 <= k (closed by computation)."""
+    1 if the result array is never grown.  C09_epoll_bounded needs 2 <= k (closed by computation).
+EPollPoller_poll_grow_guard (numEvents size : Z) : bool,  EPollPoller_poll_new_size (size : Z) : Z
+    the conjunction of the if-conditions on the path to events_.resize(..) in EPollPoller::poll and the
+    resize argument, translated term by term (link lemma: C09_Proofs.ep_grow_link).
+Channel_has, Channel_handleEventWithGuard_calls (revents : N) : list N
+    Channel::handleEventWithGuard: for every invocation of a *Callback_ member, in source order, the
+    conjunction of the if-conditions on the path to it, translated from the AST (revents_ & mask tests;
+    the macros are already expanded to their integer values); codes close=0 error=1 read=2 write=3.
+    Link lemma: C09_Proofs.dispatch_link (generated function = C09_Model.dispatch): editing a mask in
+    Channel.cc breaks that obligation.
+Channel_handleEvent_runs (tied guard : bool) : bool,  Channel_handleEvent_guard_is_tie_lock : bool
+    Channel::handleEvent: the condition under which handleEventWithGuard is called, and whether `guard`
+    is assigned from tie_.lock() (link lemma: C09_Proofs.tie_link).
+EventLoop_loop_dispatches_snapshot : bool
+    EventLoop::loop: the while body clears activeChannels_, fills it by poller_->poll(.., &activeChannels_)
+    and then calls handleEvent on EVERY element of it, with no test in the range-for body.
+EventLoop_handleRead_reads_wakeupfd / EventLoop_handleRead_read_size / EventLoop_eventfd_semaphore,
+TimerQueue_handleRead_reads_timerfd / TimerQueue_readTimerfd_read_size
+    the wake-up eventfd and the timerfd are read (8 bytes, unconditionally) by the read callbacks of
+    their channels; the eventfd is not created with EFD_SEMAPHORE."""
 import os, sys
 sys.path.insert(0, os.path.dirname(os.path.abspath(__file__)))
 import cxxast
@@ -106,9 +125,389 @@ def grow_factor():
     return 1, note
 
 
+# --------------------------------------------------------------------------- small translators
+class Untr(Exception):
+    pass
+
+
+def kids(n):
+    return [c for c in n.get("inner", []) or [] if isinstance(c, dict)]
+
+
+def paths_to(stmt, is_target, path=()):
+    """(target node, path) for every target inside stmt, in source order; path = tuple of
+    (condition node, polarity) of the enclosing IfStmts.  Loops / switches on the way are refused."""
+    k = stmt.get("kind")
+    if k == "IfStmt":
+        inner = kids(stmt)
+        cond = inner[0]
+        for t in cxxast.walk(cond):
+            if is_target(t):
+                raise Untr("target inside an if-condition")
+        if len(inner) > 1:
+            yield from paths_to(inner[1], is_target, path + ((cond, True),))
+        if len(inner) > 2:
+            yield from paths_to(inner[2], is_target, path + ((cond, False),))
+        return
+    if k in ("WhileStmt", "ForStmt", "DoStmt", "CXXForRangeStmt", "SwitchStmt", "ConditionalOperator", "LambdaExpr"):
+        if any(is_target(t) for t in cxxast.walk(stmt)):
+            raise Untr("target under a %s" % k)
+        return
+    if is_target(stmt):
+        yield stmt, path
+        return
+    if k == "BinaryOperator" and stmt.get("opcode") in ("&&", "||") and any(is_target(t) for t in cxxast.walk(stmt)):
+        raise Untr("target under a short-circuit operator")
+    for c in kids(stmt):
+        yield from paths_to(c, is_target, path)
+
+
+def conj(parts):
+    parts = [p for p in parts if p != "true"]
+    if "false" in parts:
+        return "false"
+    if not parts:
+        return "true"
+    r = parts[-1]
+    for p in reversed(parts[:-1]):
+        r = "(andb %s %s)" % (p, r)
+    return r
+
+
+def disj(parts):
+    parts = [p for p in parts if p != "false"]
+    if "true" in parts:
+        return "true"
+    if not parts:
+        return "false"
+    r = parts[-1]
+    for p in reversed(parts[:-1]):
+        r = "(orb %s %s)" % (p, r)
+    return r
+
+
+def neg(t):
+    if t == "true":
+        return "false"
+    if t == "false":
+        return "true"
+    return "(negb %s)" % t
+
+
+# ---- Channel::handleEventWithGuard: tests on revents_ ------------------------------------------
+CB_CODE = {"closeCallback_": 0, "errorCallback_": 1, "readCallback_": 2, "writeCallback_": 3}
+
+
+def callback_member(node):
+    """name of the *Callback_ member a node invokes (std::function::operator()), else None"""
+    if node.get("kind") != "CXXOperatorCallExpr":
+        return None
+    inner = kids(node)
+    if len(inner) < 2:
+        return None
+    callee = cxxast.strip(inner[0])
+    if callee.get("kind") != "DeclRefExpr" or callee.get("referencedDecl", {}).get("name") != "operator()":
+        return None
+    obj = cxxast.strip(inner[1])
+    if obj.get("kind") == "MemberExpr" and obj.get("name", "").endswith("Callback_"):
+        return obj["name"]
+    return None
+
+
+def rev_int(node):
+    """integer expression over revents_: ('const', v) | ('rev', mask or None)"""
+    node = cxxast.strip(node)
+    try:
+        return ("const", cxxast.const_eval(node))
+    except Exception:  # noqa
+        pass
+    k = node.get("kind")
+    if k == "MemberExpr" and node.get("name") == "revents_":
+        return ("rev", None)
+    if k == "BinaryOperator" and node.get("opcode") == "&":
+        a, b = rev_int(node["inner"][0]), rev_int(node["inner"][1])
+        for x, y in ((a, b), (b, a)):
+            if x[0] == "rev" and y[0] == "const":
+                m = y[1] if x[1] is None else (x[1] & y[1])
+                if m < 0:
+                    raise Untr("negative mask")
+                return ("rev", m)
+    raise Untr("integer expression %s" % k)
+
+
+def rev_truth(v):
+    if v[0] == "const":
+        return "true" if v[1] else "false"
+    if v[1] is None:
+        return "(negb (N.eqb revents 0%N))"
+    return "(Channel_has revents %d%%N)" % v[1]
+
+
+def rev_bool(node):
+    node = cxxast.strip(node)
+    k = node.get("kind")
+    if k == "BinaryOperator":
+        op = node["opcode"]
+        if op == "&&":
+            return conj([rev_bool(node["inner"][0]), rev_bool(node["inner"][1])])
+        if op == "||":
+            return disj([rev_bool(node["inner"][0]), rev_bool(node["inner"][1])])
+        if op in ("==", "!="):
+            a, b = rev_int(node["inner"][0]), rev_int(node["inner"][1])
+            for x, y in ((a, b), (b, a)):
+                if y == ("const", 0):
+                    t = rev_truth(x)
+                    return t if op == "!=" else neg(t)
+            raise Untr("comparison with a non-zero constant")
+    if k == "UnaryOperator" and node.get("opcode") == "!":
+        return neg(rev_bool(node["inner"][0]))
+    if k == "CXXMemberCallExpr":
+        callee = cxxast.strip(kids(node)[0])
+        if callee.get("kind") == "MemberExpr" and callee.get("name") == "operator bool":
+            obj = cxxast.strip(kids(callee)[0]) if kids(callee) else {}
+            if obj.get("kind") == "MemberExpr" and obj.get("name", "").endswith("Callback_"):
+                return "true"      # "if (xCallback_) xCallback_()": the callback is invoked when set
+        raise Untr("call %s" % callee.get("name"))
+    return rev_truth(rev_int(node))
+
+
+def dispatch_calls():
+    fn = cxxast.function_decl("muduo/net/Channel.cc", "Channel::handleEventWithGuard")
+    rows = []
+    for node, path in paths_to(cxxast.body(fn), lambda n: callback_member(n) is not None):
+        name = callback_member(node)
+        if name not in CB_CODE:
+            raise Untr("unknown callback member %s" % name)
+        cond = conj([rev_bool(c) if pol else neg(rev_bool(c)) for c, pol in path])
+        rows.append((name, CB_CODE[name], cond))
+    if not rows:
+        raise Untr("no callback invocation found")
+    return rows
+
+
+# ---- Channel::handleEvent: the tie_ guard -------------------------------------------------------
+def tie_bool(node):
+    node = cxxast.strip(node)
+    k = node.get("kind")
+    if k == "MemberExpr" and node.get("name") == "tied_":
+        return "tied"
+    if k == "CXXMemberCallExpr":
+        callee = cxxast.strip(kids(node)[0])
+        if callee.get("kind") == "MemberExpr" and callee.get("name") == "operator bool":
+            obj = cxxast.strip(kids(callee)[0]) if kids(callee) else {}
+            if obj.get("kind") == "DeclRefExpr" and obj.get("referencedDecl", {}).get("name") == "guard":
+                return "guard"
+        raise Untr("call %s" % callee.get("name"))
+    if k == "UnaryOperator" and node.get("opcode") == "!":
+        return neg(tie_bool(node["inner"][0]))
+    if k == "BinaryOperator" and node.get("opcode") in ("&&", "||"):
+        f = conj if node["opcode"] == "&&" else disj
+        return f([tie_bool(node["inner"][0]), tie_bool(node["inner"][1])])
+    raise Untr("condition %s" % k)
+
+
+def tie_guard():
+    fn = cxxast.function_decl("muduo/net/Channel.cc", "Channel::handleEvent")
+
+    def is_call(n):
+        if n.get("kind") != "CXXMemberCallExpr":
+            return False
+        name, _ = member_name(n)
+        return name == "handleEventWithGuard"
+    alts = []
+    for node, path in paths_to(cxxast.body(fn), is_call):
+        alts.append(conj([tie_bool(c) if pol else neg(tie_bool(c)) for c, pol in path]))
+    if not alts:
+        raise Untr("handleEventWithGuard is never called")
+    from_lock = False
+    for n in cxxast.walk(cxxast.body(fn)):
+        if n.get("kind") == "CXXOperatorCallExpr":
+            inner = kids(n)
+            callee = cxxast.strip(inner[0]) if inner else {}
+            if callee.get("referencedDecl", {}).get("name") == "operator=" and len(inner) >= 3:
+                lhs = cxxast.strip(inner[1])
+                if lhs.get("kind") == "DeclRefExpr" and lhs.get("referencedDecl", {}).get("name") == "guard":
+                    for m in cxxast.walk(inner[2]):
+                        if m.get("kind") == "CXXMemberCallExpr":
+                            nm, mem = member_name(m)
+                            if nm == "lock" and object_of(mem).get("name") == "tie_":
+                                from_lock = True
+    return disj(alts), from_lock
+
+
+# ---- EPollPoller::poll: the growth guard ----------------------------------------------------------
+def grow_int(node):
+    node = cxxast.strip(node)
+    k = node.get("kind")
+    if k == "IntegerLiteral":
+        return "(%d)" % int(node["value"])
+    if k == "DeclRefExpr" and node.get("referencedDecl", {}).get("name") == "numEvents":
+        return "numEvents"
+    if k == "CallExpr":
+        inner = kids(node)
+        callee = cxxast.strip(inner[0])
+        if callee.get("referencedDecl", {}).get("name") == "implicit_cast" and len(inner) == 2:
+            return grow_int(inner[1])
+        raise Untr("call %s" % callee.get("referencedDecl", {}).get("name"))
+    if k == "CXXMemberCallExpr":
+        name, mem = member_name(node)
+        if name == "size" and object_of(mem).get("name") == "events_":
+            return "size"
+        raise Untr("member call %s" % name)
+    if k == "BinaryOperator" and node.get("opcode") in ("+", "-", "*"):
+        f = {"+": "Z.add", "-": "Z.sub", "*": "Z.mul"}[node["opcode"]]
+        return "(%s %s %s)" % (f, grow_int(node["inner"][0]), grow_int(node["inner"][1]))
+    raise Untr("integer expression %s" % k)
+
+
+def grow_bool(node):
+    node = cxxast.strip(node)
+    k = node.get("kind")
+    if k == "BinaryOperator":
+        op = node["opcode"]
+        if op in ("&&", "||"):
+            f = conj if op == "&&" else disj
+            return f([grow_bool(node["inner"][0]), grow_bool(node["inner"][1])])
+        cmpops = {"<": "Z.ltb", "<=": "Z.leb", ">": "Z.gtb", ">=": "Z.geb", "==": "Z.eqb"}
+        if op in cmpops:
+            return "(%s %s %s)" % (cmpops[op], grow_int(node["inner"][0]), grow_int(node["inner"][1]))
+        if op == "!=":
+            return "(negb (Z.eqb %s %s))" % (grow_int(node["inner"][0]), grow_int(node["inner"][1]))
+    if k == "UnaryOperator" and node.get("opcode") == "!":
+        return neg(grow_bool(node["inner"][0]))
+    raise Untr("condition %s" % k)
+
+
+def grow_guard():
+    fn = cxxast.function_decl("muduo/net/poller/EPollPoller.cc", "EPollPoller::poll")
+
+    def is_resize(n):
+        if n.get("kind") != "CXXMemberCallExpr":
+            return False
+        name, mem = member_name(n)
+        return name == "resize" and object_of(mem).get("name") == "events_"
+    found = list(paths_to(cxxast.body(fn), is_resize))
+    if not found:
+        return None
+    if len(found) > 1:
+        raise Untr("more than one events_.resize")
+    node, path = found[0]
+    guard = conj([grow_bool(c) if pol else neg(grow_bool(c)) for c, pol in path])
+    return guard, grow_int(args_of(node)[0])
+
+
+# ---- EventLoop::loop: dispatch from the activeChannels_ snapshot ------------------------------------
+def loop_snapshot():
+    fn = cxxast.function_decl("muduo/net/EventLoop.cc", "EventLoop::loop")
+    note = []
+    wh = [n for n in cxxast.walk(fn) if n.get("kind") == "WhileStmt"]
+    if len(wh) != 1:
+        return False, ["%d while statements in EventLoop::loop" % len(wh)]
+    body = kids(wh[0])[1]
+    stage = 0       # 0: expect clear, 1: expect poll(.., &activeChannels_), 2: expect range-for, 3: done
+    for st in kids(body):
+        node = cxxast.strip(st)
+        names = [m.get("name") for m in cxxast.walk(st) if m.get("kind") == "MemberExpr"]
+        if stage == 0 and node.get("kind") == "CXXMemberCallExpr" and "clear" in names and "activeChannels_" in names:
+            stage = 1
+            continue
+        if stage == 1 and "poll" in names and "poller_" in names and "activeChannels_" in names:
+            stage = 2
+            continue
+        if stage == 2 and st.get("kind") == "CXXForRangeStmt":
+            inner = kids(st)
+            rng = []
+            for d in inner[:-1]:
+                for v in cxxast.walk(d):
+                    if v.get("kind") == "VarDecl" and str(v.get("name", "")).startswith("__range"):
+                        rng += [m.get("name") for m in cxxast.walk(v) if m.get("kind") == "MemberExpr"]
+            if "activeChannels_" not in rng:
+                return False, ["the range-for does not iterate over activeChannels_"]
+            fbody = inner[-1]
+            calls = 0
+            for n in cxxast.walk(fbody):
+                if n.get("kind") in ("IfStmt", "ContinueStmt", "BreakStmt", "ReturnStmt", "ConditionalOperator", "GotoStmt",
+                                     "WhileStmt", "ForStmt", "SwitchStmt"):
+                    return False, ["the dispatch loop body contains a %s: not every element of the snapshot is dispatched" % n.get("kind")]
+                if n.get("kind") == "CXXMemberCallExpr" and member_name(n)[0] == "handleEvent":
+                    calls += 1
+            if calls != 1:
+                return False, ["%d handleEvent calls in the dispatch loop body" % calls]
+            stage = 3
+            continue
+        if stage in (1, 2) and "activeChannels_" in names and st.get("kind") != "IfStmt":
+            return False, ["activeChannels_ is touched between poll and the dispatch loop"]
+    if stage != 3:
+        return False, ["pattern clear(); poll(.., &activeChannels_); for (channel : activeChannels_) handleEvent not found (stage %d)" % stage]
+    return True, ["activeChannels_.clear(); poller_->poll(.., &activeChannels_); for (Channel* channel : activeChannels_) "
+                  "{ .. handleEvent(..) } with no test in the loop body"]
+
+
+# ---- wake-up eventfd / timerfd drained ---------------------------------------------------------------
+def direct_read(fn, first_arg_ok):
+    """size of an unconditional read(<first arg>, .., size) that is a direct statement of the body"""
+    for st in kids(cxxast.body(fn)):
+        if st.get("kind") in ("IfStmt", "WhileStmt", "ForStmt", "DoStmt", "SwitchStmt", "CXXForRangeStmt"):
+            continue
+        for n in cxxast.walk(st):
+            if n.get("kind") != "CallExpr":
+                continue
+            inner = kids(n)
+            callee = cxxast.strip(inner[0])
+            if callee.get("referencedDecl", {}).get("name") != "read" or len(inner) != 4:
+                continue
+            if not first_arg_ok(cxxast.strip(inner[1])):
+                continue
+            return cxxast.const_eval(inner[3])
+    return None
+
+
+def wake_facts():
+    out = {}
+    fn = cxxast.function_decl("muduo/net/EventLoop.cc", "EventLoop::handleRead")
+    sz = direct_read(fn, lambda a: a.get("kind") == "MemberExpr" and a.get("name") == "wakeupFd_")
+    out["EventLoop_handleRead_reads_wakeupfd"] = sz is not None
+    out["EventLoop_handleRead_read_size"] = sz or 0
+    fn = cxxast.function_decl("muduo/net/EventLoop.cc", "createEventfd")
+    sem = None
+    for n in cxxast.walk(fn):
+        if n.get("kind") == "CallExpr":
+            inner = kids(n)
+            callee = cxxast.strip(inner[0])
+            if callee.get("referencedDecl", {}).get("name") == "eventfd" and len(inner) == 3:
+                names = [m.get("referencedDecl", {}).get("name") for m in cxxast.walk(inner[2]) if m.get("kind") == "DeclRefExpr"]
+                lits = [int(m["value"]) for m in cxxast.walk(inner[2]) if m.get("kind") == "IntegerLiteral"]
+                sem = ("EFD_SEMAPHORE" in names) or any(v & 1 for v in lits)
+    if sem is None:
+        raise Untr("no eventfd(..) call in createEventfd")
+    out["EventLoop_eventfd_semaphore"] = sem
+    # TimerQueue::handleRead calls readTimerfd(timerfd_, ..) as a direct statement; readTimerfd reads its first parameter
+    fn = cxxast.function_decl("muduo/net/TimerQueue.cc", "TimerQueue::handleRead")
+    calls = False
+    for st in kids(cxxast.body(fn)):
+        node = cxxast.strip(st)
+        if node.get("kind") == "CallExpr":
+            inner = kids(node)
+            callee = cxxast.strip(inner[0])
+            if callee.get("referencedDecl", {}).get("name") == "readTimerfd" and len(inner) >= 2:
+                a = cxxast.strip(inner[1])
+                if a.get("kind") == "MemberExpr" and a.get("name") == "timerfd_":
+                    calls = True
+    fn = cxxast.function_decl("muduo/net/TimerQueue.cc", "readTimerfd")
+    params = [c.get("name") for c in kids(fn) if c.get("kind") == "ParmVarDecl"]
+    sz = direct_read(fn, lambda a: a.get("kind") == "DeclRefExpr" and params and a.get("referencedDecl", {}).get("name") == params[0])
+    out["TimerQueue_handleRead_reads_timerfd"] = bool(calls and sz is not None)
+    out["TimerQueue_readTimerfd_read_size"] = sz or 0
+    return out
+
+
+def cmt(s):
+    return s.replace("(*", "( *").replace("*)", "* )")
+
+
 def main():
     out = ["(* GENERATED by lib/gen_C09.py from %s -- do not edit *)" % cxxast.REPO,
-           "From Coq Require Import ZArith Bool.", ""]
+           "From Coq Require Import ZArith NArith Bool List.", "Import ListNotations.", ""]
     try:
         ri, note = remove_resets_index()
         for x in note:
@@ -125,6 +524,57 @@ def main():
     except Exception as e:  # noqa
         print("MISSING EPollPoller_grow_factor (%s)" % e)
         out.append("(* MISSING EPollPoller_grow_factor: %s *)" % str(e).replace("*)", ""))
+    try:
+        g = grow_guard()
+        if g is None:
+            print("FALLBACK EPollPoller_poll_grow_guard: no events_.resize(..) in EPollPoller::poll; guard = false")
+            out.append("(* muduo/net/poller/EPollPoller.cc poll: events_ is never resized *)")
+            g = ("false", "size")
+        else:
+            out.append("(* muduo/net/poller/EPollPoller.cc poll: path conditions to events_.resize(..) and its argument *)")
+        out.append("Definition EPollPoller_poll_grow_guard (numEvents size : Z) : bool :=\n  %s." % g[0])
+        out.append("Definition EPollPoller_poll_new_size (size : Z) : Z :=\n  %s." % g[1])
+    except Exception as e:  # noqa
+        print("MISSING EPollPoller_poll_grow_guard (%s)" % e)
+        out.append("(* MISSING EPollPoller_poll_grow_guard: %s *)" % cmt(str(e)))
+    out.append("")
+    out.append("Definition Channel_has (r m : N) : bool := negb (N.eqb (N.land r m) 0).")
+    try:
+        rows = dispatch_calls()
+        out.append("(* muduo/net/Channel.cc handleEventWithGuard: callback invocations in source order, each under the")
+        out.append("   conjunction of the if-conditions on its path; 0 = closeCallback_, 1 = errorCallback_, 2 = readCallback_, 3 = writeCallback_ *)")
+        out.append("Definition Channel_handleEventWithGuard_calls (revents : N) : list N :=\n  (" +
+                   ") ++\n  (".join("if %s then [%d%%N] else []" % (cond, code) for _, code, cond in rows) + ").")
+    except Exception as e:  # noqa
+        print("MISSING Channel_handleEventWithGuard_calls (%s)" % e)
+        out.append("(* MISSING Channel_handleEventWithGuard_calls: %s *)" % cmt(str(e)))
+    try:
+        runs, from_lock = tie_guard()
+        out.append("(* muduo/net/Channel.cc handleEvent: handleEventWithGuard is called iff .. ; guard = tie_.lock() *)")
+        out.append("Definition Channel_handleEvent_runs (tied guard : bool) : bool :=\n  %s." % runs)
+        out.append("Definition Channel_handleEvent_guard_is_tie_lock : bool := %s." % ("true" if from_lock else "false"))
+    except Exception as e:  # noqa
+        print("MISSING Channel_handleEvent_runs (%s)" % e)
+        out.append("(* MISSING Channel_handleEvent_runs: %s *)" % cmt(str(e)))
+    out.append("")
+    try:
+        ok, note = loop_snapshot()
+        for x in note:
+            out.append("(* muduo/net/EventLoop.cc loop: %s *)" % cmt(x))
+        out.append("Definition EventLoop_loop_dispatches_snapshot : bool := %s." % ("true" if ok else "false"))
+    except Exception as e:  # noqa
+        print("MISSING EventLoop_loop_dispatches_snapshot (%s)" % e)
+        out.append("(* MISSING EventLoop_loop_dispatches_snapshot: %s *)" % cmt(str(e)))
+    try:
+        wf = wake_facts()
+        out.append("(* muduo/net/EventLoop.cc handleRead / createEventfd, muduo/net/TimerQueue.cc handleRead / readTimerfd *)")
+        for k in ("EventLoop_handleRead_reads_wakeupfd", "EventLoop_eventfd_semaphore", "TimerQueue_handleRead_reads_timerfd"):
+            out.append("Definition %s : bool := %s." % (k, "true" if wf[k] else "false"))
+        for k in ("EventLoop_handleRead_read_size", "TimerQueue_readTimerfd_read_size"):
+            out.append("Definition %s : Z := (%d)%%Z." % (k, wf[k]))
+    except Exception as e:  # noqa
+        print("MISSING EventLoop_handleRead_reads_wakeupfd (%s)" % e)
+        out.append("(* MISSING wake-up facts: %s *)" % cmt(str(e)))
     txt = "\n".join(out) + "\n"
     path = os.path.join(cxxast.ROOT, "coq/Gen_C09.v")
     old = open(path).read() if os.path.exists(path) else None
